@@ -110,7 +110,7 @@ Definition inc_step (fuel' : nat) (fs : fsys) (path : string)
           match vis fuel' fs child g1 with
           | Err e => Err e
           | Ok g2 => if reaches (List.length g2) g2 child path then Err ECycle
-                     else Ok (add_out path (resolved path inc, child) g2)
+                     else Ok (add_out path (resolved fs path inc, child) g2)
           end
       end
   end.
@@ -148,7 +148,7 @@ Proof.
           - left. exists m0. split; [exact Hm0 | split; congruence].
           - right. left. split; congruence.
           - right. right. apply (closed_static fs n m S1 S2 Hc). }
-        assert (H3 : Inv (add_out path (resolved path inc, child) g2)).
+        assert (H3 : Inv (add_out path (resolved fs path inc, child) g2)).
         { intros n Hn. destruct (add_out_static _ _ _ _ Hn) as [m [Hm [S1 S2]]].
           destruct (H2 m Hm) as [[m0 [Hm0 [T1 T2]]]|[[P1 P2]|Hc]].
           - left. exists m0. split; [exact Hm0 | split; congruence].
